@@ -92,6 +92,26 @@ let () =
         Printf.sprintf "W=%s L=%s R=%s" (match oct_buf s with [] -> "-" | l -> hex_of_zlist l)
           (String.concat "," (List.map string_of_z ls))
           (String.concat ";" (List.map show_rd rs)));
+  (* c11i <schedule over W R T> <api><type>:<value> ...  (interleaved: W = next write, R = next
+     matching read, T = Tidy)  ->  S=<step;...> P=<pos>/<len> U=<unread bytes, hex>
+     step: w<pos>/<len> | R<pos before>~<res@pos/len+alloc> | t<pos>/<len> *)
+  Registry.register "c11i" (fun toks ->
+      match toks with
+      | [] -> "BADCASE"
+      | sched :: vals ->
+        let sch = List.init (String.length sched) (fun i -> match sched.[i] with
+            | 'W' -> OctSW | 'R' -> OctSR | 'T' -> OctST | _ -> failwith "bad schedule") in
+        let pl s = Printf.sprintf "%d/%d" (int_of_nat (oct_pos s)) (List.length (oct_buf s)) in
+        match oct_c11i_case sch (List.map val_of_tok vals) with
+        | None -> "NONE"
+        | Some (obs, s) ->
+          let show o = match o with
+            | OctObW s1 -> "w" ^ pl s1
+            | OctObR (p0, rd) -> Printf.sprintf "R%d~%s" (int_of_nat p0) (show_rd rd)
+            | OctObT s1 -> "t" ^ pl s1 in
+          let rec drop n l = if n <= 0 then l else match l with [] -> [] | _ :: r -> drop (n - 1) r in
+          Printf.sprintf "S=%s P=%s U=%s" (String.concat ";" (List.map show obs)) (pl s)
+            (match drop (int_of_nat (oct_pos s)) (oct_buf s) with [] -> "-" | l -> hex_of_zlist l));
   (* c12 <hex|-> <op> ...  ->  R=<res@pos/len+alloc;...>   (c12o: the pre-fix ReadBytes) *)
   let c12 v = fun toks -> match toks with
     | input :: ops ->
